@@ -170,6 +170,64 @@ func TestC02(t *testing.T) {
 		}
 		verifyAll("yaml/Parse", q, y)
 	}
+	// a leftover key that interpolation turns into the name of a signed field: the JSON output must
+	// still carry the signed field (so the signature verifies after re-parsing); yaml.v3 refuses to
+	// write such a step at all (listed finding, explicit witnesses)
+	collisionReported := false
+	for ci, field := range []string{"command", "env", "plugins", "matrix", "label"} {
+		doc := "env: {P: v}\nsteps:\n  - command: make build\n    env: {A: b}\n    plugins: [docker#v1]\n    matrix: [x, y]\n    \"${EXTRA_FIELD}\": leftover\n"
+		p, err := pipeline.Parse(bytes.NewReader([]byte(doc)))
+		if err != nil {
+			t.Fatalf("parse: %v", err)
+		}
+		if err := p.Interpolate(&mapEnv{m: map[string]string{"EXTRA_FIELD": field}}, false); err != nil {
+			fail("collision %s: interpolate: %v", field, err)
+			continue
+		}
+		key := keys[ci%len(keys)]
+		penv := p.Env.ToMap()
+		if err := signature.SignSteps(ctx, p.Steps, key.signer, "repo", signature.WithEnv(penv)); err != nil {
+			fail("collision %s: SignSteps: %v", field, err)
+			continue
+		}
+		cases++
+		j, err := json.Marshal(p)
+		if err != nil {
+			fail("collision %s: json.Marshal: %v", field, err)
+			continue
+		}
+		q, err := pipeline.Parse(bytes.NewReader(j))
+		if err != nil && !warning.Is(err) {
+			fail("collision %s: re-parse JSON: %v\n%s", field, err, j)
+			continue
+		}
+		for _, c := range commandSteps(q.Steps) {
+			if c.Signature == nil {
+				fail("collision %s: signature lost\n%s", field, j)
+			} else if err := signature.Verify(ctx, c.Signature, key.pub, &signature.CommandStepWithInvariants{CommandStep: *c, RepositoryURL: "repo"}, signature.WithEnv(penv)); err != nil {
+				fail("collision %s: a leftover key named like the signed field %q changed what the JSON output carries: %v\n%s", field, field, err, j)
+			}
+		}
+		yerr := func() (err error) {
+			defer func() {
+				if r := recover(); r != nil {
+					err = fmt.Errorf("panic: %v", r)
+				}
+			}()
+			_, err = yaml.Marshal(p)
+			return
+		}()
+		if yerr != nil {
+			if what, ok := knownOpen("C02", "interpolated-key-collides-with-field"); ok {
+				if !collisionReported {
+					fmt.Printf("KNOWN-FINDING: property=C02 %s\n", what)
+				}
+				collisionReported = true
+			} else {
+				fail("collision %s: yaml.Marshal: %v", field, yerr)
+			}
+		}
+	}
 	if knownHits > 0 {
 		fmt.Printf("KNOWN-FINDING: property=C02 %s (%d generated documents skipped on the YAML leg)\n", knownWhat, knownHits)
 	}
